@@ -338,6 +338,11 @@ func c08One(ctx *Ctx, i int, rng *rand.Rand, allowStall bool) {
 
 func runC08(ctx *Ctx) {
 	n := ctx.N(200, 5000)
+	for c := 0; c < ctx.N(8, 80); c++ {
+		if ctx.Want(n + 500 + c) {
+			e2eCase(ctx, n+500+c, ctx.Sub(n+500+c), "c08-")
+		}
+	}
 	nstall := ctx.N(4, 60)
 	forEachCase(ctx, n+nstall, func(i int, rng *rand.Rand) {
 		c08One(ctx, i, rng, i >= n)
@@ -362,6 +367,9 @@ func runC09(ctx *Ctx) {
 	for drv := 0; drv < 2; drv++ {
 		if ctx.Want(n + 60 + drv) {
 			c09InflightReconnect(ctx, n+60+drv, drv)
+		}
+		if ctx.Want(n + 70 + drv) {
+			c09CloseWhileOwnRequestRuns(ctx, n+70+drv, drv)
 		}
 	}
 	forEachCase(ctx, n, func(i int, rng *rand.Rand) {
